@@ -2,7 +2,7 @@
 # usage: benign.sh <dir with p*.diff> ...   — runs all checks on each behaviour-preserving patch
 # (applied to a scratch worktree of /repo). Any non-zero check is a false alarm of the checker.
 cd /verif
-PROPS=$(./bin/gocoverif list)
+PROPS=$(${BIN:-./bin/gocoverif} list)
 for d in "$@"; do
  for P in "$d"/p*.diff; do
   [ -f "$P" ] || continue
@@ -12,7 +12,7 @@ for d in "$@"; do
   cp known_findings.json MANIFEST.json "$EV/"
   alarms=""
   for id in $PROPS; do
-    out=$(./bin/gocoverif check "$id" --repo "$WT/r" --verif "$EV" 2>&1); rc=$?
+    out=$(${BIN:-./bin/gocoverif} check "$id" --repo "$WT/r" --verif "$EV" 2>&1); rc=$?
     if [ $rc -ne 0 ]; then alarms="$alarms $id"; printf '%s\n' "$out" | grep -E 'violation:|undecided|MISSED' | cut -c1-300 | head -3 | sed "s|^|    [$id] |"; fi
   done
   echo "$P: alarms:$alarms"
